@@ -75,8 +75,8 @@ def register(kernel):
                    ("ObservableEvaluator", "qucumber/callbacks/observable_evaluator.py")):
         kernel("C17", name="get_value_" + cls, file=f, func=cls + ".get_value",
                inputs=[("index", "index", OZ)], unused_params=["name"],
-               atoms=[("self.past_values[$i][-1][name]", "(sel $i)", "V")],
-               coq_params=[("V", "Type"), ("sel", "Z -> V"), ("index", "option Z")], result="V",
+               atoms=[("self.past_values[$i][-1][name]", "(sel $i)", "Val")],
+               coq_params=[("Val", "Type"), ("sel", "Z -> Val"), ("index", "option Z")], result="Val",
                thm_params=[("V", "Type"), ("n", "name"), ("index", "option Z"), ("ev", "evaluator V")],
                gen_args="(result V) (fun i => ev_get_value n (Some i) ev) index",
                model="ev_get_value n index ev", model_name="Callbacks.ev_get_value (index defaulting)", imports=["Callbacks"],
@@ -197,3 +197,103 @@ def register(kernel):
            gen_args="", model="", model_name="Protocol.fit (through Skeleton.run_skel: the extracted control skeleton, interpreted, is the protocol machine)",
            imports=["Protocol", "Skeleton"], cor_imports=["SkeletonT", "ProtocolT"],
            tactic="apply run_skel_of_eqb; vm_compute; reflexivity")
+
+    # ------------------------------------------------------------------ C01 / C05: the row-wise formulas of the networks and states
+    VT = "intros; cbv [GEN %s half two]; tie_vec_norm; tie_vec_close"
+    brbm_atoms = [("self.visible_bias", "(bb r)", "V"), ("self.weights", "(bW r)", "M"), ("self.hidden_bias", "(bc r)", "V")]
+    bfile = dict(file="qucumber/rbm/binary_rbm.py", vec=True, imports=["Bits", "Rbm"], ncols="(length (bb r))")
+    bparams = [("r", "(@brbm R)"), ("v", "bits")]
+    for pid in ("C01", "C05"):
+        kernel(pid, name="binary_effective_energy", func="BinaryRBM.effective_energy", inputs=[("v", "v", "BV")], atoms=brbm_atoms,
+               coq_params=bparams, result=F, thm_params=bparams, gen_args="r v", model="b_eff_energy ROps r v",
+               model_name="Rbm.b_eff_energy", tactic=VT % "b_eff_energy", **bfile)
+    kernel("C05", name="binary_prob_h_given_v", func="BinaryRBM.prob_h_given_v", inputs=[("v", "v", "BV")], unused_params=["out"], atoms=brbm_atoms,
+           coq_params=bparams, result="V", thm_params=bparams, gen_args="r v", model="b_prob_h_given_v ROps r v",
+           model_name="Rbm.b_prob_h_given_v", tactic=VT % "b_prob_h_given_v", **bfile)
+    kernel("C05", name="binary_prob_v_given_h", func="BinaryRBM.prob_v_given_h", inputs=[("h", "v", "BV")], unused_params=["out"], atoms=brbm_atoms,
+           coq_params=bparams, result="V", thm_params=bparams, gen_args="r v", model="b_prob_v_given_h ROps r v",
+           model_name="Rbm.b_prob_v_given_h", tactic=VT % "b_prob_v_given_h", **bfile)
+    # PurificationRBM
+    prbm_atoms = [("self.visible_bias", "(pb r)", "V"), ("self.weights_W", "(pW r)", "M"), ("self.weights_U", "(pU r)", "M"),
+                  ("self.hidden_bias", "(pc r)", "V"), ("self.aux_bias", "(pd r)", "V"),
+                  ("torch.einsum('...v,av,...a->...', $v, self.weights_U.data, $a)", "(dotb ROps (matvecb ROps (pU r) $v) $a)", F)]
+    pfile = dict(file="qucumber/rbm/purification_rbm.py", vec=True, imports=["Bits", "Rbm"], ncols="(length (pb r))")
+    pparams = [("r", "(@prbm R)"), ("v", "bits")]
+    for pid in ("C02", "C05"):
+        kernel(pid, name="purification_effective_energy", func="PurificationRBM.effective_energy",
+               inputs=[("v", "v", "BV"), ("a", "a", "OBV")], atoms=prbm_atoms,
+               coq_params=[("r", "(@prbm R)"), ("v", "bits"), ("a", "option bits")], result=F,
+               thm_params=[("r", "(@prbm R)"), ("v", "bits"), ("a", "option bits")], gen_args="r v a",
+               model="match a with Some a' => p_eff_energy_va ROps r v a' | None => p_eff_energy ROps r v end",
+               model_name="Rbm.p_eff_energy / p_eff_energy_va", tactic="intros r v a; cbv [GEN p_eff_energy p_eff_energy_va]; destruct a; tie_vec_norm; tie_vec_close", **pfile)
+    for nm, mdl in (("prob_h_given_v", "p_prob_h_given_v"), ("prob_a_given_v", "p_prob_a_given_v")):
+        kernel("C05", name="purification_" + nm, func="PurificationRBM." + nm, inputs=[("v", "v", "BV")], unused_params=["out"], atoms=prbm_atoms,
+               coq_params=pparams, result="V", thm_params=pparams, gen_args="r v", model="%s ROps r v" % mdl,
+               model_name="Rbm." + mdl, tactic=VT % mdl, **pfile)
+    kernel("C05", name="purification_prob_v_given_ha", func="PurificationRBM.prob_v_given_ha", inputs=[("h", "h", "BV"), ("a", "a", "BV")],
+           unused_params=["out"], atoms=prbm_atoms, coq_params=[("r", "(@prbm R)"), ("h", "bits"), ("a", "bits")], result="V",
+           thm_params=[("r", "(@prbm R)"), ("h", "bits"), ("a", "bits")], gen_args="r h a", model="p_prob_v_given_ha ROps r h a",
+           model_name="Rbm.p_prob_v_given_ha", tactic=VT % "p_prob_v_given_ha", **pfile)
+    # states
+    wf = dict(vec=True, imports=["Bits", "Rbm", "States"])
+    kernel("C01", name="amplitude", file="qucumber/nn_states/wavefunction.py", func="WaveFunctionBase.amplitude", inputs=[("v", "v", "BV")],
+           atoms=[("self.rbm_am.effective_energy($v)", "(b_eff_energy ROps am $v)", F)],
+           coq_params=[("am", "(@brbm R)"), ("v", "bits")], result=F, thm_params=[("am", "(@brbm R)"), ("v", "bits")], gen_args="am v",
+           model="amplitude ROps am v", model_name="States.amplitude", tactic=VT % "amplitude", **wf)
+    kernel("C01", name="complex_phase", file="qucumber/nn_states/complex_wavefunction.py", func="ComplexWaveFunction.phase", inputs=[("v", "v", "BV")],
+           atoms=[("self.rbm_ph.effective_energy($v)", "(b_eff_energy ROps ph $v)", F)],
+           coq_params=[("ph", "(@brbm R)"), ("v", "bits")], result=F, thm_params=[("ph", "(@brbm R)"), ("v", "bits")], gen_args="ph v",
+           model="cplx_phase ROps ph v", model_name="States.cplx_phase", tactic=VT % "cplx_phase", **wf)
+    kernel("C01", name="psi", file="qucumber/nn_states/wavefunction.py", func="WaveFunctionBase.psi", inputs=[("v", "v", "BV")],
+           atoms=[("self.amplitude($v)", "(amplitude ROps am $v)", F), ("self.phase($v)", "(cplx_phase ROps ph $v)", F)],
+           coq_params=[("am", "(@brbm R)"), ("ph", "(@brbm R)"), ("v", "bits")], result="C",
+           thm_params=[("am", "(@brbm R)"), ("ph", "(@brbm R)"), ("v", "bits")], gen_args="am ph v",
+           model="cplx_psi ROps am ph v", model_name="States.cplx_psi (psi = amplitude (cos, sin) phase, for the complex state's phase)",
+           tactic=VT % "cplx_psi", **wf)
+    kernel("C01", name="probability", file="qucumber/nn_states/neural_state.py", func="NeuralStateBase.probability",
+           inputs=[("v", "v", "BV"), ("Z", "Zn", F)],
+           atoms=[("self.rbm_am.effective_energy($v)", "(b_eff_energy ROps am $v)", F)],
+           coq_params=[("am", "(@brbm R)"), ("v", "bits"), ("Zn", "R")], result=F,
+           thm_params=[("am", "(@brbm R)"), ("v", "bits"), ("Zn", "R")], gen_args="am v Zn",
+           model="probability ROps am v Zn", model_name="States.probability", tactic=VT % "probability", **wf)
+
+    # ------------------------------------------------------------------ C02: density-matrix elements
+    dm = dict(file="qucumber/nn_states/density_matrix.py", vec=True, pairwise=True, imports=["Bits", "Rbm", "States"])
+    kernel("C02", name="rho", func="DensityMatrix.rho", inputs=[("v", "v", "BV"), ("vp", "vp", "OBV"), ("expand", "expand", B)],
+           atoms=[("self.probability($v)", "(dm_probability ROps am $v (IZR 1))", F),
+                  ("self.pi($v, $vp, expand=expand)", "(dm_pi ROps am ph $v $vp)", "C"),
+                  ("self.rbm_am.gamma($v, $vp, eta=+1, expand=expand)", "(p_gamma ROps am true $v $vp)", F),
+                  ("self.rbm_ph.gamma($v, $vp, eta=-1, expand=expand)", "(p_gamma ROps ph false $v $vp)", F)],
+           coq_params=[("am", "(@prbm R)"), ("ph", "(@prbm R)"), ("v", "bits"), ("vp", "option bits"), ("expand", "bool")], result="C",
+           thm_params=[("am", "(@prbm R)"), ("ph", "(@prbm R)"), ("v", "bits"), ("vp", "option bits"), ("expand", "bool")],
+           gen_args="am ph v vp expand",
+           model="match vp with Some vp' => dm_rho ROps am ph v vp' | None => if expand then dm_rho ROps am ph v v else dm_rho_diag ROps am v end",
+           model_name="States.dm_rho / dm_rho_diag (vp=None: the diagonal shortcut when expand is False, else vp = v)",
+           tactic="intros am ph v vp expand; cbv [GEN dm_rho dm_rho_diag]; destruct vp, expand; cbn [Bool.eqb andb negb]; tie_vec_norm; tie_vec_close", **dm)
+    kernel("C02", name="pi", func="DensityMatrix.pi", inputs=[("v", "v", "BV"), ("vp", "vp", "BV")], unused_params=["expand"],
+           atoms=[("self.rbm_am.weights_U", "(pU am)", "M"), ("self.rbm_am.aux_bias", "(pd am)", "V"), ("self.rbm_ph.weights_U", "(pU ph)", "M")],
+           coq_params=[("am", "(@prbm R)"), ("ph", "(@prbm R)"), ("v", "bits"), ("vp", "bits")], result="C",
+           thm_params=[("am", "(@prbm R)"), ("ph", "(@prbm R)"), ("v", "bits"), ("vp", "bits")], gen_args="am ph v vp",
+           model="dm_pi ROps am ph v vp", model_name="States.dm_pi",
+           tactic="intros am ph v vp; cbv [GEN dm_pi pi_args]; "
+                  "generalize (linearb ROps (pU am) (pd am) v) (linearb ROps (pU am) (pd am) vp) (matvecb ROps (pU ph) v) (matvecb ROps (pU ph) vp); "
+                  "intros a b c d; apply (f_equal2 pair); "
+                  "cbv [vadd vsub vscale vmul vaddc vatan2 half two pi_real1 pi_imag1]; cbn [nadd nsub nmul ndiv nopp nexp nln nsqrt ncos nsin natan2 n0 n1 ROps]; "
+                  "replace (1 + 1)%R with 2%R by lra; tie_vec4 a b c d", **dm)
+    kernel("C02", name="mixing_term", file="qucumber/rbm/purification_rbm.py", func="PurificationRBM.mixing_term", inputs=[("v", "v", "BV")], vec=True,
+           atoms=[("self.weights_U", "(pU r)", "M"), ("self.aux_bias", "(pd r)", "V")], imports=["Bits", "Rbm"],
+           coq_params=[("r", "(@prbm R)"), ("v", "bits")], result="V", thm_params=[("r", "(@prbm R)"), ("v", "bits")], gen_args="r v",
+           model="linearb ROps (map (vscale ROps (1 / 2)) (pU r)) (pd r) v",
+           model_name="F.linear(v, 0.5 U, d) (no separate model function; used by the gradient model)",
+           tactic="intros; cbv [GEN]; tie_vec_norm; repeat f_equal; lra")
+    kernel("C02", name="gamma", file="qucumber/rbm/purification_rbm.py", func="PurificationRBM.gamma", vec=True, pairwise=True,
+           inputs=[("v", "v", "BV"), ("vp", "vp", "BV"), ("eta", "plus", B), ("expand", "expand", B)],
+           atoms=[("np.sign(eta)", "(if plus then IZR 1 else IZR (-1))", F), ("v.dim() < 2 and vp.dim() < 2", "dim1", B),
+                  ("self.visible_bias", "(pb r)", "V"), ("self.weights_W", "(pW r)", "M"), ("self.hidden_bias", "(pc r)", "V")],
+           imports=["Bits", "Rbm"], ncols="(length (pb r))",
+           coq_params=[("r", "(@prbm R)"), ("v", "bits"), ("vp", "bits"), ("plus", "bool"), ("expand", "bool"), ("dim1", "bool")], result=F,
+           thm_params=[("r", "(@prbm R)"), ("v", "bits"), ("vp", "bits"), ("plus", "bool"), ("expand", "bool"), ("dim1", "bool")],
+           hyps=["length v = length (pb r)", "length vp = length (pb r)"], gen_args="r v vp plus expand dim1",
+           model="p_gamma ROps r plus v vp", model_name="Rbm.p_gamma (vector form and batched form)",
+           tactic="intros r v vp plus expand dim1 Hv Hp; cbv [GEN p_gamma p_vis_term half two]; tie_vec_norm; "
+                  "rewrite ?(dot_vadd_scale _ (pb r) v vp Hv Hp); destruct dim1, plus; lra")
